@@ -322,6 +322,7 @@ type c06Profile struct {
 	reAdd     int
 	nsrc      int
 	maxOps    int
+	family    bool // the pool is one family: e, e/, e/*rest, e/:p, e/x, ec, and fallbacks
 	name      string
 }
 
@@ -425,6 +426,7 @@ func c06Profiles() []c06Profile {
 		{name: "structural", share: 25, nsrc: 2, maxOps: 10, collide: 8, invalid: 3, escapes: 10, trouble: 12, keyNames: 25, reAdd: 2},
 		{name: "odd", share: 40, mixFlags: true, nsrc: 3, maxOps: 12, collide: 15, invalid: 8, escapes: 6, trouble: 4, keyNames: 8, dupPath: 12, dupID: 12, reAdd: 20},
 		{name: "long", share: 20, nsrc: 3, maxOps: 25, collide: 12, invalid: 4, escapes: 4, reAdd: 3},
+		{name: "family", share: 10, mixFlags: false, nsrc: 2, maxOps: 12, collide: 5, invalid: 1, reAdd: 1, family: true},
 	}
 }
 
@@ -684,6 +686,23 @@ func c06GenRun(r *vf.Rand) (c06Case, c06Obs, []string) {
 		n := 2 + r.Intn(4)
 		pool := make([]string, 0, n)
 
+		if pf.family {
+			base := "/" + vf.Pick(r, c06Segs)
+			if r.Bool() {
+				base += vf.Pick(r, []string{"/:p1", "/a", "/b"})
+			}
+
+			d := strings.Count(base, "/")
+			fam := []string{base, base + "/", base + "/*rest", fmt.Sprintf("%s/:p%d", base, d), base + "/x", base + "c", "/*rest", "/:p0/*rest", "/:p0"}
+			n = 3 + r.Intn(4)
+
+			for i := 0; i < n; i++ {
+				pool = append(pool, vf.Pick(r, fam))
+			}
+
+			n = 0
+		}
+
 		for i := 0; i < n; i++ {
 			if len(all)+len(pool) > 0 && r.Intn(100) < 55 {
 				prev := append(append([]string{}, all...), pool...)
@@ -691,6 +710,15 @@ func c06GenRun(r *vf.Rand) (c06Case, c06Obs, []string) {
 			} else {
 				pool = append(pool, c06GenExpr(r, &pf))
 			}
+		}
+
+		// fallbacks make backtracking (and a wrong node flag) visible
+		if s == 0 && r.Intn(100) < 35 {
+			pool = append(pool, "/*rest")
+		}
+
+		if r.Intn(100) < 15 {
+			pool = append(pool, "/:p0/*rest")
 		}
 
 		g.pool = append(g.pool, pool)
